@@ -291,6 +291,7 @@ class Exec(ExprMixin, StmtMixin, CallMixin):
         pre = p.fork()
         self.nexec = 0
         self.old_stack = [pre]
+        self.apply_lemmas('entry', p)
         res = self.exec_block(fn.node.body, [p])
         self.old_stack = []
         nret = 0
@@ -563,7 +564,7 @@ def _verify_lemma(self, name, L):
         for i, src in enumerate(c.get(which, [])):
             nm, src = src if isinstance(src, tuple) else ('%s%d' % (which, i), src)
             if only is not None and nm not in only: continue
-            out.append(_Cl(nm, src, q, d))
+            cl = _Cl(nm, src, q, d); cl.overridden = bool(overrides); out.append(cl)
         if not out: raise StaleContract('lemma %s: %s has no %s clauses' % (name, key, which))
         return out
 
@@ -572,8 +573,10 @@ def _verify_lemma(self, name, L):
         if cl.q is not p:      # clauses of another contract see the lemma's current heap / pc but their own bindings
             q.pc = p.pc
         self.defs = cl.defs
+        saved_cache = self.param_cache
+        if getattr(cl, 'overridden', False): self.param_cache = {}      # parametric macros are re-evaluated under the substituted definitions
         try: return self.spec_eval(cl.src, q)
-        finally: self.defs = own_defs
+        finally: self.defs = own_defs; self.param_cache = saved_cache
     for h in L.get('hyps', []):
         for cl in clauses(h): p.assume(ev_clause(cl))
     self.vcs.append(VC('cover/hyps', list(p.pc), z3.BoolVal(False), 'cover', 0, self.fn.key, expect='sat'))
@@ -628,8 +631,10 @@ def _use_lemma(self, name, binding, p, where, conditional=False, forall=None):
     jv = None
     if forall:
         conditional = True
-        jv = fresh(forall, I); p = p  # the quantified index is visible to the binding expressions only
-        penv_saved = p.env.get(forall); p.env[forall] = VInt(jv); self.qvars.append(jv)
+        names = [x.strip() for x in forall.split(',')]
+        jv = [fresh(nm, I) for nm in names]      # the quantified indices are visible to the binding expressions only
+        penv_saved = {nm: p.env.get(nm) for nm in names}
+        for nm, v in zip(names, jv): p.env[nm] = VInt(v); self.qvars.append(v)
     try:
         for n in L.get('vars', {}):
             if n not in binding: raise StaleContract('use of lemma %s does not bind %s' % (name, n))
@@ -646,7 +651,7 @@ def _use_lemma(self, name, binding, p, where, conditional=False, forall=None):
             # conditional use: (hypotheses => conclusions) is assumed, no obligation (the lemma simply does not apply otherwise)
             guard = (lambda t: z3.Implies(z3.And(*hyps), t) if hyps else t) if conditional else (lambda t: t)
             if jv is not None:
-                g0 = guard; guard = lambda t: z3.ForAll([jv], g0(t))
+                g0 = guard; guard = lambda t: z3.ForAll(jv, g0(t))
             if 'induct' in L: p.assume(guard(self.induct_fact(L, q)))
             for g in L.get('goals', []):
                 if isinstance(g, tuple) and g[0] not in ('assume', 'requires', 'ensures') and isinstance(g[1], str):
@@ -656,12 +661,25 @@ def _use_lemma(self, name, binding, p, where, conditional=False, forall=None):
             self.defs = saved
     finally:
         if jv is not None:
-            self.qvars.pop()
-            if penv_saved is None: p.env.pop(forall, None)
-            else: p.env[forall] = penv_saved
+            for _ in jv: self.qvars.pop()
+            for nm, v in penv_saved.items():
+                if v is None: p.env.pop(nm, None)
+                else: p.env[nm] = v
 
 
 def _apply_lemmas(self, anchor, p):
+    # instantiation of a precondition that was required for an ARBITRARY weight W (uninterpreted symbol: callers prove it without
+    # knowing anything about W, so it holds for every weight function).  The clause is first re-proved in the current state with W
+    # still uninterpreted (guards against the state having changed since entry), then assumed with W replaced by a definition.
+    for cname, overrides in self.contract.get('instantiate', {}).get(anchor, []):
+        src = next((x[1] for x in self.contract.get('requires', []) if isinstance(x, tuple) and x[0] == cname), None)
+        if src is None: raise StaleContract('instantiate: no precondition named ' + cname)
+        t = self.spec_eval(src, p)
+        self.vcs.append(VC('instantiate/%s@%s/still-holds' % (cname, anchor), list(p.pc), t, 'assert', 0, self.fn.key))
+        saved = self.defs; self.defs = dict(self.defs); self.defs.update(overrides)
+        saved_cache = self.param_cache; self.param_cache = {}          # parametric macros must be re-evaluated under the new definition
+        try: p.assume(self.spec_eval(src, p))
+        finally: self.defs = saved; self.param_cache = saved_cache
     for u in self.contract.get('use_lemmas', {}).get(anchor, []):
         mode = u[2] if len(u) > 2 else ''
         self.use_lemma(u[0], u[1], p, anchor, conditional=(mode == 'if-applicable'), forall=(mode[7:] if mode.startswith('forall:') else None))
